@@ -42,6 +42,7 @@ from __future__ import annotations
 import copy
 import json
 import re
+import os
 import warnings
 
 from .. import c05_gen as G, c15_prog as P, fingerprint as F, harness as H
@@ -791,6 +792,13 @@ class Case:
             reasons = {"checks": ("DATAFRAME_CHECK",),
                        "dtype": ("WRONG_DATATYPE", "DATATYPE_COERCION", "DATAFRAME_CHECK",
                                  "CHECK_ERROR")}[what]
+            if what == "checks" and (getattr(S, "checks", None) or []):
+                # a dataframe-level check that rejects the violating value too is
+                # not a constraint of that column and stays after the update; the
+                # normalised error list below does not tell the two apart reliably
+                # (thorough tier, seed 1: one case in 60 000) -> not judged
+                run.count("undecided:RELAX-dataframe-level-checks-present")
+                continue
             if before.kind != "SchemaErrors" or not before.errors or not all(
                     str(e.column) == str(k) and e.reason in reasons
                     for e in before.errors):
